@@ -761,7 +761,21 @@ func TestConcurrency(t *testing.T) {
 				}
 			}
 		}
-		rec.Case(fmt.Sprintf("conc/%s/procs=%d", c.Kind, c.Procs), mut >= 2, mustJSON(c), func() any { return c })
+		rec.Case(fmt.Sprintf("conc/%s/procs=%d", c.Kind, c.Procs), mut >= 2, mustJSON(c), func() any {
+			// the sample keeps the shape of the run, not the bulk of the uploaded contents
+			cp := ConcCase{Kind: c.Kind, Procs: c.Procs}
+			for _, sq := range c.Seqs {
+				var l []Op
+				for _, op := range sq {
+					if len(op.Content) > 64 {
+						op.Content = fmt.Sprintf("<%d bytes>", len(op.Content))
+					}
+					l = append(l, op)
+				}
+				cp.Seqs = append(cp.Seqs, l)
+			}
+			return cp
+		})
 		o, err := evaluate(Case{Conc: &c})
 		if err != nil {
 			rt.Fatalf("harness: %v", err)
